@@ -41,6 +41,8 @@ pub fn bin_sequences(wsize: usize, msize: usize, in_path: &str, out_path: &str, 
                         records_arc_clone.lock().unwrap().next()
                     };
                     if let Some(record) = record {
+                        #[cfg(feature = "verif")]
+                        ktio::verif::point("min.taken", record.n);
                         let mgen = if wsize == 0 {
                             MinimiserGenerator::new(&record.seq, record.seq.len(), msize)
                         } else {
@@ -62,6 +64,8 @@ pub fn bin_sequences(wsize: usize, msize: usize, in_path: &str, out_path: &str, 
                         }
                     } else {
                         // end of iteration
+                        #[cfg(feature = "verif")]
+                        ktio::verif::point("min.exit", usize::MAX);
                         break;
                     }
                 }
@@ -116,6 +120,8 @@ pub fn seq_to_min(wsize: usize, msize: usize, in_path: &str, out_path: &str, thr
                         records_arc_clone.lock().unwrap().next()
                     };
                     if let Some(record) = record {
+                        #[cfg(feature = "verif")]
+                        ktio::verif::point("min.taken", record.n);
                         let mgen = if wsize == 0 {
                             MinimiserGenerator::new(&record.seq, record.seq.len(), msize)
                         } else {
@@ -144,6 +150,8 @@ pub fn seq_to_min(wsize: usize, msize: usize, in_path: &str, out_path: &str, thr
                         }
                     } else {
                         // end of iteration
+                        #[cfg(feature = "verif")]
+                        ktio::verif::point("min.exit", usize::MAX);
                         break;
                     }
                 }
